@@ -24,7 +24,7 @@ class RefHeap:
 def gen_history(rng, tier):
     shape = rng.choice(['uniform', 'uniform', 'burst', 'adversarial', 'equal'])
     n = rng.choice([3, 6, 12, 25, 50, 100, 200] if tier == 'quick' else [6, 25, 100, 200, 400, 800, 3000])
-    sizes_pool = rng.choice([[4, 8, 16], [4, 4, 8, 16, 32, 64], list(range(1, 65)), [1, 1, 1, 2, 3], [4], [1, 2, 4, 8, 16, 32, 64]])
+    sizes_pool = rng.choice([[4, 8, 16], [4, 4, 8, 16, 32, 64], list(range(1, 65)), [1, 1, 1, 2, 3], [4], [1, 2, 4, 8, 16, 32, 64], [4, 70000, 1 << 20, 3], [100, 127, 128, 129, 255, 256, 257]])
     ops = []
     live = 0
 
@@ -135,6 +135,7 @@ def execute_history(case, res):
             size = int(arg)
             n_free_before = len(h.released)
             dt = case.get('size_dtype', 'int')
+            if dt != 'int' and size > np.iinfo(dt).max: dt = 'int64'
             loc = int(h.alloc(size if dt == 'int' else getattr(np, dt)(size)))      # sizes may arrive as numpy scalars (capacity vectors)
             res.log.add('a', size, loc)
             res.count('heap_steps')
